@@ -293,7 +293,10 @@ class DT:
         if self.rt != "float":
             return True
         try:
-            return self.float_bits(self.bits_to_py(bits)) == bits
+            v = self.bits_to_py(bits)
+            if self.name.endswith("mxfp") and v in (math.inf, -math.inf):
+                return False                                       # stored saturated under the default mxfp_overflow
+            return self.float_bits(v) == bits
         except (Bad, KeyError, OverflowError, struct.error):
             return False
 
@@ -549,7 +552,8 @@ def _exec_hist(f):
         elif op == "bop":
             v = Bits(bin=unwire(g[2])) if unwire(g[2]) else Bits()
             refl = len(g) > 3 and g[3] == "r"
-            ok, r = _guard(lambda: PYOPS[g[1]](v, a) if refl else PYOPS[g[1]](a, v)); tok = _atok(r) if ok else r
+            vs = "0b" + unwire(g[2])                                # a str on the left reaches Array.__rand__ & co.
+            ok, r = _guard(lambda: PYOPS[g[1]](vs, a) if refl else PYOPS[g[1]](a, v)); tok = _atok(r) if ok else r
             if ok:
                 _poke(r)
         elif op == "ibop":
@@ -821,6 +825,12 @@ class Ref:
         if op in ("op", "rop", "iop", "uop"):
             name = g[1]
             res_dt = BOOL if name in CMP else dt
+            if op == "rop" and name == "sub":
+                for x in lst:
+                    try:
+                        dt.enc(-x)
+                    except (Bad, TypeError):
+                        self.flags.append("rsub_negation")
             out = []
             failed = False
             for x in lst:
@@ -992,9 +1002,450 @@ def _flagged(name):
 
 
 REGIONS = {n: _flagged(n) for n in ("bytes_dtype", "count_nonnumeric", "insert_negative", "eq_ne_arrays_mixed_dtype",
-                                     "extend_array_itemsize")}
+                                     "extend_array_itemsize", "rsub_negation")}
 
 
 def nontrivial(line):
     f = line.split(SEP)
     return f[1] == "promo" or len(f) > 5
+
+
+# ---------------------------------------------------------------------------------------------------------
+# generators
+# ---------------------------------------------------------------------------------------------------------
+INT_TOKENS = [t for t, s in DT_STR.items() if dt_of(s).kind != "raw" and dt_of(s).name != "bool"]
+FLOAT_TOKENS = [t for t, s in DT_STR.items() if dt_of(s).rt == "float"]
+STR_TOKENS = [t for t, s in DT_STR.items() if dt_of(s).rt == "other" and dt_of(s).mult == 1]
+BYTES_TOKENS = [t for t, s in DT_STR.items() if dt_of(s).mult != 1]
+UNIT_TOKENS = [t for t, s in DT_STR.items() if dt_of(s).mult == 1]
+IDX_TOKENS = ["u3", "i5", "u8", "hex4", ">H", "bool", "float16", "i1", "bin3", "<h", "e2m1mxfp", "u17"]
+
+
+def D(tok):
+    return dt_of(DT_STR[tok])
+
+
+def rvalue(dt, rng):
+    """A valid wire value for the dtype."""
+    w = dt.w
+    if dt.kind in ("u", "ule"):
+        hi = (1 << w) - 1
+        return rng.choice([0, 1 & hi, hi, hi // 2, hi - (1 if hi else 0), rng.randint(0, hi), rng.randint(0, hi), rng.randint(0, min(hi, 9))])
+    if dt.kind in ("i", "ile"):
+        lo, hi = -(1 << (w - 1)), (1 << (w - 1)) - 1
+        return rng.choice([0, lo, hi, max(lo, -1), min(hi, 1), rng.randint(lo, hi), rng.randint(lo, hi), rng.randint(max(lo, -9), min(hi, 9))])
+    for _ in range(50):
+        b = rand_bits(rng, w) if rng.random() < 0.5 else format(rng.getrandbits(w), "0%db" % w)
+        if dt.canonical(b):
+            return "#" + b
+    return "#" + "0" * w
+
+
+def badvalue(dt, rng):
+    """A wire value the dtype must reject."""
+    w = dt.w
+    if dt.kind in ("u", "ule"):
+        return rng.choice([1 << w, -1, (1 << w) + 5])
+    if dt.kind in ("i", "ile"):
+        return rng.choice([1 << (w - 1), -(1 << (w - 1)) - 1])
+    return "!"
+
+
+def _canon_bits(dt, rng, nbits):
+    """nbits of data whose whole items are canonical patterns (floats: no NaN payloads)."""
+    k = nbits // dt.w
+    return "".join(dt.enc(rvalue(dt, rng)) for _ in range(k)) + rand_bits(rng, nbits - k * dt.w)
+
+
+def rvals(dt, rng, n):
+    return [rvalue(dt, rng) for _ in range(n)]
+
+
+def rtrail(dt, rng, p=0.5):
+    """trailing_bits: None, or 1..w-1 bits (never a whole item)."""
+    if dt.w <= 1 or rng.random() > p:
+        return None
+    return rand_bits(rng, rng.choice([1, dt.w - 1, rng.randint(1, dt.w - 1)]))
+
+
+def hist(dt, vals, trail, ops, init=None):
+    ini = init if init is not None else "L:" + _vsstr(vals)
+    return SEP.join(["C14", "hist", dt.s, ini, "None" if trail is None else wire(trail)] + list(ops))
+
+
+def _slice_args(rng, n):
+    pick = lambda: rng.choice([None, None, 0, 1, -1, n, -n, n - 1, n + 1, -n - 1, rng.randint(-n - 2, n + 2)])
+    st = rng.choice([None, 1, 1, -1, 2, -2, 3, -3, n + 1, -(n + 1), rng.randint(1, n + 1), -rng.randint(1, n + 1)])
+    return pick(), pick(), st
+
+
+def random_op(ref, rng, allow_bad=True):
+    """One random operation that stays outside the known-finding regions, chosen by looking at the reference state."""
+    dt, n, tr = ref.dt, len(ref.lst), ref.tr
+    idx = lambda: rng.choice([0, -1, n - 1, n, -n, -n - 1, rng.randint(-n - 2, n + 2), rng.randint(-n, max(n - 1, -n))])
+    numeric = dt.rt != "other"
+    r = rng.random()
+    v = lambda: _vstr(rvalue(dt, rng) if (not allow_bad or rng.random() > 0.06) else badvalue(dt, rng))
+    if r < 0.05:
+        return "len"
+    if r < 0.13:
+        return f"get:{idx()}"
+    if r < 0.21:
+        a, b, c = _slice_args(rng, n)
+        return f"sl:{sv(a)}:{sv(b)}:{sv(c)}"
+    if r < 0.29:
+        return f"set:{idx()}:{v()}"
+    if r < 0.37:
+        a, b, c = _slice_args(rng, n)
+        if c in (None, 1):
+            k = rng.choice([0, 1, 2, 3, max(0, len(range(*slice(a, b, c).indices(n))))])
+        else:
+            k = len(range(*slice(a, b, c).indices(n)))
+            if rng.random() < 0.08:
+                k += rng.choice([1, -1]) if k else 1
+        vs = rvals(dt, rng, k)
+        kind = rng.choice(["", "", ":it", ":tu"])
+        return f"ssl:{sv(a)}:{sv(b)}:{sv(c)}:{_vsstr(vs)}{kind}"
+    if r < 0.42:
+        return f"del:{idx()}"
+    if r < 0.49:
+        a, b, c = _slice_args(rng, n)
+        return f"dsl:{sv(a)}:{sv(b)}:{sv(c)}"
+    if r < 0.57:
+        return f"app:{v()}"
+    if r < 0.63:
+        return f"ext:{_vsstr(rvals(dt, rng, rng.randint(0, 3)))}{rng.choice(['', ':it', ':tu'])}"
+    if r < 0.71:
+        if tr:
+            i = rng.choice([0, 1, n, n + 1, n + 5, rng.randint(0, n + 1)])
+        else:
+            i = rng.choice([0, 1, n, n + 1, -1, -n, rng.randint(-n, n + 1)])
+        return f"ins:{i}:{v()}"
+    if r < 0.78:
+        return "pop" if rng.random() < 0.4 else f"pop:{idx()}"
+    if r < 0.82:
+        return "rev"
+    if r < 0.86:
+        if numeric:
+            if ref.lst and rng.random() < 0.7:
+                cand = [x for x in ref.lst if not (dt.rt == "float" and int(x[2:] or "0", 2) == 0)]
+                if cand:
+                    return f"cnt:{_vstr(rng.choice(cand))}"
+            x = rvalue(dt, rng)
+            if dt.rt == "float" and int(x[2:] or "0", 2) == 0:
+                return "list"
+            return f"cnt:{_vstr(x)}"
+        return "iter"
+    if r < 0.89:
+        return rng.choice(["list", "iter", "copy", "tobytes"])
+    if r < 0.92:
+        return "extself" if rng.random() < 0.5 else f"exta:{dt.s}:{_vsstr(rvals(dt, rng, rng.randint(0, 2)))}:{sv(None if rng.random() < 0.7 else wire(rtrail(dt, rng, 1.0) or ''))}"
+    if r < 0.95:
+        same = [D(t) for t in UNIT_TOKENS if D(t).key == dt.key]
+        o = rng.choice(same) if same and rng.random() < 0.7 else D(rng.choice(UNIT_TOKENS))
+        cp = list(ref.lst) if o.key == dt.key and rng.random() < 0.6 else rvals(o, rng, n)
+        t2 = ref.tr if rng.random() < 0.7 else (rtrail(o, rng, 0.5) or "")
+        return f"eqs:{o.s}:{_vsstr(cp)}:{sv(None if not t2 else t2)}"
+    if r < 0.98:
+        o = D(rng.choice(["u8", "u4", "i16", "hex4", "bin1", "u3", "<h", ">H", "u12", "bool"]))
+        return f"dtype:{o.s}"
+    return "bswap" if dt.rt != "float" else "len"
+
+
+def random_history(dt, rng, steps, trail_p=0.5, allow_bad=True):
+    n = rng.choice([0, 1, 2, 3, 4, 5, 6, 8])
+    vals = rvals(dt, rng, n)
+    trail = rtrail(dt, rng, trail_p)
+    f = ["C14", "hist", dt.s, "L:" + _vsstr(vals), "None" if trail is None else wire(trail)]
+    ref = Ref(dt, f[3], trail)
+    ops = []
+    for _ in range(steps):
+        o = random_op(ref, rng, allow_bad)
+        ops.append(o)
+        try:
+            if ref.step(o) is None:
+                break
+        except Stop:
+            break
+    return SEP.join(f + ops)
+
+
+INT_OPS = ["add", "sub", "mul", "floordiv", "mod", "lshift", "rshift"]
+
+
+def _opt_table(dt, res_dt, name, k, items):
+    """Graph of `x -> x <op> k` on the items at hand, by the reference codec; None when it leaves what we know."""
+    ent = []
+    for x in dict.fromkeys(items):
+        try:
+            r = PYOPS[name](dt.bits_to_py(x[1:]), k)
+            if res_dt.rt == "bool":
+                ent.append(f"{x}>{1 if r else 0}")
+            else:
+                r = float(r)
+                if r != r or r in (math.inf, -math.inf):
+                    return None
+                b = res_dt.float_bits(r)
+                if res_dt.bits_to_py(b) in (math.inf, -math.inf):
+                    return None
+                ent.append(f"{x}>#{b}")
+        except (Bad, ZeroDivisionError, OverflowError, KeyError, struct.error):
+            return None
+    return ",".join(ent)
+
+
+def gen(rng, tier):
+    big = tier != "quick"
+    # ---------------------------------------------------------------- 1. exhaustive index arithmetic, lengths 0..N
+    N = 7 if big else 5
+    cyc = itertools.cycle(IDX_TOKENS)
+    for n in range(0, N + 1):
+        for trailing in (False, True):
+            dt = D(next(cyc))
+            while trailing and dt.w == 1:
+                dt = D(next(cyc))
+            mk = lambda: (rvals(dt, rng, n), (rand_bits(rng, rng.randint(1, dt.w - 1)) if trailing else None))
+            rngv = list(range(-(n + 3), n + 4))
+            vals, tr = mk()
+            yield hist(dt, vals, tr, [f"get:{i}" for i in rngv] + ["len", "list", "iter"])
+            for i in rngv:
+                vals, tr = mk()
+                yield hist(dt, vals, tr, [f"set:{i}:{_vstr(rvalue(dt, rng))}", "list"])
+                yield hist(dt, vals, tr, [f"del:{i}"])
+                yield hist(dt, vals, tr, [f"pop:{i}", "len"])
+                yield hist(dt, vals, tr, [f"ins:{i}:{_vstr(rvalue(dt, rng))}"])
+            yield hist(dt, vals, tr, ["pop", "pop", "pop"])
+            yield hist(dt, vals, tr, ["rev", "rev"])
+            bounds = [None] + list(range(-(n + 2), n + 3))
+            steps = [None, 1, -1, 2, -2, 3, -3, n + 1, -(n + 1), 0] if not big else [None, 0] + [x for x in range(-(n + 2), n + 3) if x]
+            for a in bounds:
+                for b in bounds:
+                    vals, tr = mk()
+                    yield hist(dt, vals, tr, [f"sl:{sv(a)}:{sv(b)}:{sv(c)}" for c in steps])
+                    for c in steps:
+                        if not big and rng.random() < 0.62:
+                            continue
+                        if c == 0:
+                            k = 1
+                        elif c in (None, 1):
+                            k = rng.choice([0, 1, 2, len(range(*slice(a, b, c).indices(n)))])
+                        else:
+                            k = len(range(*slice(a, b, c).indices(n)))
+                        yield hist(dt, vals, tr, [f"ssl:{sv(a)}:{sv(b)}:{sv(c)}:{_vsstr(rvals(dt, rng, k))}"])
+                        yield hist(dt, vals, tr, [f"dsl:{sv(a)}:{sv(b)}:{sv(c)}"])
+                        if c not in (None, 1, 0) and rng.random() < 0.1:
+                            yield hist(dt, vals, tr, [f"ssl:{sv(a)}:{sv(b)}:{sv(c)}:{_vsstr(rvals(dt, rng, k + 1))}"])
+    # ---------------------------------------------------------------- 2. every dtype: construction, layout, basic ops
+    for tok in UNIT_TOKENS:
+        dt = D(tok)
+        for rep in range(3 if big else 1):
+            n = rng.choice([1, 2, 3, 5])
+            vals = rvals(dt, rng, n)
+            tr = rtrail(dt, rng, 0.5)
+            v = lambda: _vstr(rvalue(dt, rng))
+            yield hist(dt, vals, tr, ["len", "list", "iter", "get:0", "get:-1", f"set:{n // 2}:{v()}", f"ins:1:{v()}", "sl:None:None:-1",
+                                      "sl:1:None:2", f"ssl:None:None:2:{_vsstr(rvals(dt, rng, (n + 2) // 2))}", "pop:0", "dsl:None:None:2", "copy", "tobytes"])
+            yield hist(dt, vals, None, [f"app:{v()}", f"ext:{v()},{v()}", "rev", "pop", "extself", f"ssl:1:2:None:{v()},{v()},{v()}", "del:-1", "list"])
+            yield hist(dt, [], None, [], init=f"N:{rng.choice([0, 1, 3])}")
+            yield hist(dt, [], tr, ["len", "list", "get:0", f"ins:5:{v()}", "pop"], init="B:" + wire(_canon_bits(dt, rng, rng.choice([0, dt.w, 2 * dt.w + (1 if dt.w > 1 else 0), 3 * dt.w]))))
+            yield hist(dt, vals, None, [], init="-")
+            # a value that does not fit: construction, and each single-value mutator leaves the Array unchanged
+            bad = _vstr(badvalue(dt, rng))
+            yield hist(dt, vals[:1] + [_val(bad)] + vals[1:], None, [])
+            yield hist(dt, vals, tr, [f"set:0:{bad}", f"ins:1:{bad}", "list"])
+            yield hist(dt, vals, None, [f"app:{bad}", "list", f"ext:{v()},{bad}"])
+            yield hist(dt, vals, None, [f"ssl:0:1:None:{v()},{bad}"])
+            yield hist(dt, vals + vals, None, [f"ssl:None:None:2:{_vsstr(rvals(dt, rng, n - 1) + [_val(bad)])}"])
+    # ---------------------------------------------------------------- 3. random histories, all unit-width dtypes
+    per = 40 if big else 7
+    for tok in UNIT_TOKENS:
+        dt = D(tok)
+        for i in range(per):
+            yield random_history(dt, rng, rng.choice([1, 2, 3, 5, 8, 12, 15]), trail_p=0.5)
+    for _ in range(20000 if big else 1500):
+        dt = D(rng.choice(["u1", "u3", "u7", "u8", "u9", "i4", "i8", "u16", "i17", "hex4", "bool", "float16", "<H", "u64", "u65", "bin3", "oct3", "e4m3mxfp"]))
+        yield random_history(dt, rng, rng.randint(1, 15), trail_p=0.5)
+    # ---------------------------------------------------------------- 4. element-wise operators (int dtypes)
+    op_tokens = ["u1", "u4", "u8", "u9", "i1", "i4", "i8", "i16", "u16", "u17", "i64", "u64", "u65", "uintle16", "intle24", "intbe16", ">H", "<i", ">b", "<B", "bool"]
+    for tok in op_tokens:
+        dt = D(tok)
+        for rep in range(6 if big else 2):
+            n = rng.choice([0, 1, 2, 3, 5])
+            vals = rvals(dt, rng, n)
+            tr = rtrail(dt, rng, 0.4)
+            ks = [0, 1, -1, 2, 3, 7, -3, (1 << dt.w) - 1, 1 << (dt.w - 1), rng.randint(-20, 20)]
+            ops = []
+            for name in INT_OPS + list(CMP):
+                k = rng.choice(ks if name not in ("lshift", "rshift") else [0, 1, 2, dt.w - 1, dt.w, -1])
+                ops.append(f"op:{name}:{k}")
+            yield hist(dt, vals, tr, ops)
+            yield hist(dt, vals, tr, [f"rop:{name}:{rng.choice(ks)}" for name in ("add", "mul")] + ["uop:neg", "uop:abs"])
+            yield hist(dt, vals, tr, [f"rop:sub:{rng.choice(ks)}"])
+            if dt.signed and dt.w > 1:
+                lim = (1 << (dt.w - 1)) - 1
+                yield hist(dt, [rng.randint(-lim, lim) for _ in range(n)], tr, [f"rop:sub:{rng.randint(-3, 3)}", f"rop:sub:{rng.choice(ks)}"])
+            for name in INT_OPS:
+                k = rng.choice(ks if name not in ("lshift", "rshift") else [0, 1, 2, dt.w, -1])
+                yield hist(dt, vals, None, [f"iop:{name}:{k}", "list", f"iop:{name}:{k}"])
+            # in-place operator that overflows at exactly one element: the Array (and its trailing bits) must not change
+            if n >= 1 and dt.name != "bool":
+                hi = (1 << dt.w) - 1 if not dt.signed else (1 << (dt.w - 1)) - 1
+                lo = 0 if not dt.signed else -(1 << (dt.w - 1))
+                pos = rng.randrange(n)
+                small = [rng.randint(max(lo, -2), min(hi - 1, 2)) if hi > 0 else lo for _ in range(n)]
+                small[pos] = hi
+                t2 = rtrail(dt, rng, 0.6)
+                yield hist(dt, small, t2, ["iop:add:1", "list", "iop:sub:0" if t2 is None else "len"])
+                yield hist(dt, small, t2, ["iop:mul:2" if hi > 0 else "iop:sub:1", "list"])
+                yield hist(dt, small, t2, ["iop:floordiv:0", "iop:mod:0", "iop:lshift:-1", "list"])
+                small[pos] = lo
+                yield hist(dt, small, t2, ["iop:sub:1", "list"])
+                yield hist(dt, small, t2, ["op:sub:1", "op:add:1", "uop:neg", "uop:abs"])
+            # bitwise with a Bits value
+            for name in ("and", "or", "xor"):
+                m = rand_bits(rng, dt.w)
+                yield hist(dt, vals, tr, [f"bop:{name}:{wire(m)}", f"bop:{name}:{wire(m)}:r", f"ibop:{name}:{wire(m)}", "list",
+                                          f"ibop:{name}:{wire(m + '1')}", f"bop:{name}:{wire(m[:-1])}"])
+    for tok in ["hex8", "float32", "bin3", "p3binary", "bits9", "oct6"]:
+        dt = D(tok)
+        vals = rvals(dt, rng, 3)
+        for name in ("and", "or", "xor"):
+            m = rand_bits(rng, dt.w)
+            yield hist(dt, vals, rtrail(dt, rng, 0.5), [f"bop:{name}:{wire(m)}"] + ([f"ibop:{name}:{wire(m)}", "list"] if dt.rt != "float" else []))
+    # operators between Arrays: every pair of these dtypes, all lengths equal / unequal
+    pair_tokens = ["u4", "u8", "u16", "i4", "i8", "i16", "bool", "uintle16", "intbe16", "<b", "i64", "u65"]
+    for ta in pair_tokens:
+        for tb in pair_tokens:
+            da, db = D(ta), D(tb)
+            n = rng.choice([0, 1, 2, 3, 4])
+            va = [rng.randint(0, min(7, (1 << da.w) - 1 if not da.signed else (1 << (da.w - 1)) - 1)) for _ in range(n)] if rng.random() < 0.6 else rvals(da, rng, n)
+            vb = [rng.randint(0, min(7, (1 << db.w) - 1 if not db.signed else (1 << (db.w - 1)) - 1)) for _ in range(n)] if rng.random() < 0.6 else rvals(db, rng, n)
+            sm = [min(x, 9) if x >= 0 else max(x, -2) for x in vb]    # shift counts stay small
+            try:
+                for x in sm:
+                    db.enc(x)
+            except Bad:
+                sm = [0] * n
+            ops = [f"aop:{name}:{db.s}:{_vsstr(sm if 'shift' in name else vb)}:None" for name in INT_OPS + ["lt", "le", "gt", "ge"]]
+            yield hist(da, va, rtrail(da, rng, 0.3), ops)
+            if da.key == db.key:
+                yield hist(da, va, None, [f"aop:eq:{db.s}:{_vsstr(vb)}:None", f"aop:ne:{db.s}:{_vsstr(va)}:None"])
+            yield hist(da, va, None, [f"iaop:{rng.choice(INT_OPS[:3])}:{db.s}:{_vsstr(vb)}:None", "list", "len"])
+            yield hist(da, va, None, [f"aop:add:{db.s}:{_vsstr(vb + rvals(db, rng, 1))}:None"])
+    for tok in ["u8", "i8", "hex4", "bool", "bin3"]:
+        dt = D(tok)
+        vals = rvals(dt, rng, 3)
+        other = list(vals)
+        other[1] = rvalue(dt, rng)
+        yield hist(dt, vals, None, [f"eql:eq:{_vsstr(other)}", f"eql:ne:{_vsstr(other)}", f"eql:eq:{_vsstr(other[:2])}", f"aop:eq:{dt.s}:{_vsstr(other)}:None"])
+        if dt.rt == "other":
+            yield hist(dt, vals, None, [f"aop:add:{dt.s}:{_vsstr(other)}:None", "op:add:1", "uop:neg"])
+    # ---------------------------------------------------------------- 5. float dtypes: operator graphs
+    for tok in ["float16", "float32", "float64", "floatle32", "floatne64", ">e", "<f", "=d"]:
+        dt = D(tok)
+        for rep in range(8 if big else 3):
+            n = rng.choice([1, 2, 3, 4])
+            # modest exactly representable values
+            vals = []
+            while len(vals) < n:
+                x = rng.choice([0.0, 1.0, -1.0, 0.5, 2.0, 3.0, -2.5, 100.0, 0.25, float(rng.randint(-64, 64)), rng.randint(-512, 512) / 8.0])
+                try:
+                    vals.append("#" + dt.float_bits(x))
+                except (Bad, OverflowError):
+                    pass
+            for name, k in (("add", 1.5), ("sub", 0.25), ("mul", 2), ("mul", -0.5), ("truediv", 2), ("truediv", 4.0), ("add", 3), ("floordiv", 2), ("mod", 2)):
+                tbl = _opt_table(dt, dt, name, k, vals)
+                if tbl is None:
+                    continue
+                ks = _fscalar(k) if isinstance(k, float) else str(k)
+                yield hist(dt, vals, rtrail(dt, rng, 0.3), [f"opt:{name}:{ks}:{dt.s}:{tbl}", "list"])
+                yield hist(dt, vals, None, [f"iopt:{name}:{ks}:{tbl}", "list"])
+            for name, k in (("lt", 1.0), ("ge", 0), ("eq", 1.0), ("ne", 0.5)):
+                tbl = _opt_table(dt, BOOL, name, k, vals)
+                ks = _fscalar(k) if isinstance(k, float) else str(k)
+                yield hist(dt, vals, None, [f"opt:{name}:{ks}:{BOOL.s}:{tbl}"])
+    # ---------------------------------------------------------------- 6. promotion: all pairs of representative dtypes
+    promo = ["u1", "u8", "u9", "u64", "i1", "i8", "i9", "i64", "bool", "uintle16", "uintbe16", "intle16", "intbe32", "uintne32", "intne16",
+             "float16", "float32", "float64", "floatle16", "floatle64", "bfloat", "bfloatle", "p3binary", "p4binary", "e4m3mxfp", "e5m2mxfp",
+             "e3m2mxfp", "e2m3mxfp", "e2m1mxfp", "e8m0mxfp", "mxint", "hex8", "bin3", "oct6", "bits5", "bytes2", ">H", "<i", ">b", "<B", ">e", "<f", "=d",
+             "u16", "i16", "u17", "i17", "u32", "i32", "floatne32"]
+    for a in promo:
+        for b in promo:
+            yield SEP.join(["C14", "promo", DT_STR[a], DT_STR[b]])
+    # ---------------------------------------------------------------- 7. extend / equals / dtype change / astype / files
+    for _ in range(600 if big else 120):
+        dt = D(rng.choice(UNIT_TOKENS))
+        vals = rvals(dt, rng, rng.randint(0, 4))
+        tr = rtrail(dt, rng, 0.3)
+        o = D(rng.choice(UNIT_TOKENS)) if rng.random() < 0.5 else rng.choice([D(t) for t in UNIT_TOKENS if D(t).key == dt.key])
+        ov = rvals(o, rng, rng.randint(0, 3))
+        yield hist(dt, vals, tr, [f"exta:{o.s}:{_vsstr(ov)}:{sv(None if rng.random() < 0.6 else wire(rtrail(o, rng, 1.0) or ''))}", "list", "len"])
+        yield hist(dt, vals, tr, [f"eqs:{o.s}:{_vsstr(ov)}:None", f"eqs:{dt.s}:{_vsstr(vals)}:{sv(tr)}", f"eqs:{dt.s}:{_vsstr(vals)}:None",
+                                  f"eqs:{o.s}:{_vsstr(vals) if o.key == dt.key else _vsstr(ov)}:{sv(tr)}"])
+        o2 = D(rng.choice(["u8", "u4", "i16", "hex4", "bin1", "u3", "<q", ">H", "u12", "bool", "i5", "u7", "oct3", "<I"]))
+        yield hist(dt, vals, tr, [f"dtype:{o2.s}", "list", "len", f"dtype:{dt.s}", "list", "get:-1", f"ins:0:{_vstr(rvalue(dt, rng))}"])
+        fb = rand_bits(rng, 8 * rng.randint(0, 9)) if dt.rt != "float" else _canon_bits(dt, rng, 8 * rng.randint(0, 9))
+        yield hist(dt, vals, tr, [f"ff:{wire(fb)}:{sv(rng.choice([None, None, 0, 1, 2, len(fb) // dt.w, len(fb) // dt.w + 1]))}", "list"])
+        if dt.rt != "float":
+            yield hist(dt, vals, tr, ["bswap", "list", "bswap", "tobytes"])
+    int_like = [t for t in INT_TOKENS if D(t).w <= 33]
+    for _ in range(300 if big else 60):
+        a, b = D(rng.choice(int_like + ["bool"])), D(rng.choice(int_like + ["bool"]))
+        vals = [rng.randint(0, 1) for _ in range(rng.randint(0, 4))] if rng.random() < 0.5 else rvals(a, rng, rng.randint(0, 4))
+        yield hist(a, vals, rtrail(a, rng, 0.3), [f"astype:{b.s}", "list"])
+    for tok in ["hex4", "bin3", "float16"]:
+        dt = D(tok)
+        vals = rvals(dt, rng, 3)
+        yield hist(dt, vals, rtrail(dt, rng, 0.5), [f"astype:{dt.s}", f"astype:{D('bin3').s if tok != 'bin3' else D('hex4').s}"])
+    # array.array input: int typecodes, native sizes
+    for tc in "bBhHiIlLqQ":
+        native = _array.array(tc).itemsize * 8
+        stdsize = {"b": 8, "B": 8, "h": 16, "H": 16, "i": 32, "I": 32, "l": 32, "L": 32, "q": 64, "Q": 64}[tc]
+        name2 = ("int" if tc.islower() else "uint") + ("" if stdsize == 8 else "le")
+        for tok in {f"{'int' if tc.islower() else 'uint'}ne{native}" if native > 8 else ("i8" if tc.islower() else "u8"),
+                    "intne32", "uintne32", "intne16", "u8", "i8", "uintne64", "intne64", "intbe32", "i32", "float32"}:
+            if tok not in DT_STR:
+                continue
+            dt = D(tok)
+            xs = [rng.randint(0, 100) for _ in range(rng.randint(0, 3))]
+            raw = _array.array(tc, xs).tobytes()
+            bits = format(int.from_bytes(raw, "big"), "0%db" % (8 * len(raw))) if raw else ""
+            own = rvals(dt, rng, 2) if dt.kind != "raw" else []
+            yield hist(dt, own, None, [f"extb:{tc}:{name2}:{stdsize}:{native}:{wire(bits)}:{','.join(map(str, xs))}", "list"])
+    # ---------------------------------------------------------------- 8. known-deviation regions (dedicated, short)
+    for tok in BYTES_TOKENS:
+        dt = D(tok)
+        v = lambda: _vstr(rvalue(dt, rng))
+        yield hist(dt, rvals(dt, rng, 2), None, ["len", "list"])
+        yield hist(dt, [], None, ["len", f"app:{v()}"])
+        for nb in (0, 1, 2, 3, 5, 8):
+            bits = rand_bits(rng, 8 * nb)
+            yield hist(dt, [], None, ["len", "get:0", "get:1", "get:-1", f"get:{nb}", "list", "iter", "sl:None:None:None", "sl:None:None:2", "sl:None:None:-1",
+                                      "pop", "len", "del:0", "rev", "tobytes", f"ins:1:{v()}", f"set:0:{v()}", "dsl:None:None:2", f"ext:{v()}", "copy"],
+                       init="B:" + wire(bits))
+            yield hist(dt, [], None, [f"ff:{wire(rand_bits(rng, 8 * rng.randint(0, 6)))}:{sv(rng.choice([None, 0, 1, 2]))}", "len"], init="B:" + wire(bits))
+        yield hist(dt, [], None, [], init="N:2")
+    for tok in STR_TOKENS:
+        dt = D(tok)
+        vals = rvals(dt, rng, 4)
+        yield hist(dt, vals, None, [f"cnt:{_vstr(vals[0])}"])
+        yield hist(dt, vals, rtrail(dt, rng, 1.0), [f"cnt:{_vstr(rvalue(dt, rng))}"])
+    for tok in ["u8", "i5", "hex4", "float16", ">H"]:
+        dt = D(tok)
+        for n in (0, 1, 2, 3):
+            vals = rvals(dt, rng, n)
+            for i in (-1, -2, -n, -n - 1, -n - 2, -7):
+                yield hist(dt, vals, rtrail(dt, rng, 1.0), [f"ins:{i}:{_vstr(rvalue(dt, rng))}"])
+                yield hist(dt, vals, None, [f"ins:{i}:{_vstr(rvalue(dt, rng))}"])
+    for ta, tb in (("u8", "i8"), ("i8", "u8"), ("u8", "u16"), ("float64", "float16"), ("hex4", "bin1"), ("bool", "u1"), ("uintbe16", "u16")):
+        da, db = D(ta), D(tb)
+        n = rng.randint(0, 3)
+        va = rvals(da, rng, n)
+        try:
+            vb = [db.dec(db.enc(x)) for x in va] if da.kind != "raw" and db.kind != "raw" else rvals(db, rng, n)
+        except Bad:
+            vb = rvals(db, rng, n)
+        if da.rt == "float" or db.rt == "float":
+            continue
+        yield hist(da, va, None, [f"aop:eq:{db.s}:{_vsstr(vb)}:None"])
+        yield hist(da, va, None, [f"aop:ne:{db.s}:{_vsstr(vb)}:None"])
